@@ -1,12 +1,12 @@
 ---------------------------- MODULE PoolOrder_Gen ----------------------------
 (* S->C: every arrival order of every non-empty subset of the configured       *)
 (* servers.  After each arrival the pool's list must be in configuration       *)
-(* order (PoolSelect!AddConn); on the final pool - every connection alive,     *)
+(* order (PoolOrder!AddConn); on the final pool - every connection alive,     *)
 (* same head, round-trip time falling with the index - a first-working         *)
 (* refresh must choose the lowest configured index and a best-ping refresh     *)
 (* the highest (PoolSelect!Choices evaluated on the list in configuration      *)
 (* order).  The first arrival is the initial best connection.                  *)
-EXTENDS PoolSelect, Json, TLC
+EXTENDS PoolOrder, Json, TLC
 CONSTANTS Servers            \* configuration indices
 VARIABLES arrived, order
 ovars == <<arrived, order>>
